@@ -89,12 +89,13 @@ def target_problems(terms, allowed_params, allowed_attrs):
                         continue
                     bad.append("attribute .%s of the command namespace" % t[2])
                 else:
-                    walk(t[1], under_base)
+                    # Path(...).name / .stem: the base name of a path object, like os.path.basename
+                    walk(t[1], under_base or t[2] in ("name", "stem"))
             elif k == "ext":
                 ub = under_base or t[1] in ("os.path.basename",)
                 for a in t[2]:
                     walk(a, ub)
-                for _, v in t[3]:
+                for _, v in (t[3] if len(t) > 3 else ()):
                     walk(v, ub)
             elif k == "meth":
                 walk(t[2], under_base)
